@@ -619,6 +619,7 @@ func findDeadLocals(fn *ir.Function, live []bool) map[uint32]bool {
 	type localInfo struct {
 		hasLoad     bool
 		hasLiveLoad bool
+		escapes     bool
 	}
 	info := make([]localInfo, len(fn.LocalVars))
 
@@ -642,11 +643,26 @@ func findDeadLocals(fn *ir.Function, live []bool) map[uint32]bool {
 		}
 	}
 
+	// A pointer into a local that is live although no live load reads
+	// through it is used by something else: it is passed to a call, handed
+	// to an atomic or a ray query. That user reads what the stores wrote
+	// (stores to locals never mark their pointer, so a live pointer always
+	// has such a user or a live load).
+	for h := range fn.Expressions {
+		if !live[h] {
+			continue
+		}
+		if varIdx, ok := resolveLocalVar(fn, ir.ExpressionHandle(h)); ok && int(varIdx) < len(info) {
+			info[varIdx].escapes = true
+		}
+	}
+
 	dead := make(map[uint32]bool)
 	for i := range info {
 		// A local is dead if it has loads but none of them are live,
-		// OR if it has no loads at all (write-only local).
-		if !info[i].hasLiveLoad {
+		// OR if it has no loads at all (write-only local) - unless a
+		// pointer to it is in use elsewhere.
+		if !info[i].hasLiveLoad && !info[i].escapes {
 			dead[uint32(i)] = true
 		}
 	}
